@@ -242,6 +242,12 @@ func c11(c *Ctx) {
 	if c.Thorough() {
 		n = 3000
 	}
+	macros := map[string]uint64{}
+	for _, d := range translateTextflagH() {
+		if v, err := strconv.ParseUint(d[1], 0, 64); err == nil {
+			macros[d[0]] = v
+		}
+	}
 	cfg := printer.Config{Name: "avo", Pkg: "p"}
 	dir := filepath.Join(c.Tmp, "c11")
 	os.MkdirAll(dir, 0o755)
@@ -274,6 +280,11 @@ func c11(c *Ctx) {
 			for _, ln := range strings.Split(string(out), "\n") {
 				if strings.HasPrefix(ln, "GLOBL "+gl.Symbol.String()+",") || strings.HasPrefix(ln, "GLOBL "+gl.Symbol.String()+"(SB),") {
 					found++
+					if fm := globlFlagsRe.FindStringSubmatch(ln); fm != nil {
+						if got, okf := evalFlags(fm[1], macros); !okf || got != uint64(gl.Attributes) {
+							o.Plan.GoViolations = append(o.Plan.GoViolations, GoViolation{Key: "print:globl-flags", Desc: fmt.Sprintf("case %d: data section %s has attributes %d but its GLOBL line %q evaluates to %d", idx, gl.Symbol.Name, uint64(gl.Attributes), ln, got), Replay: map[string]any{"file": g.Desc, "text": string(out)}})
+						}
+					}
 					if !strings.HasSuffix(strings.TrimSpace(ln), ", "+want) {
 						o.Plan.GoViolations = append(o.Plan.GoViolations, GoViolation{Key: "print:globl-size", Desc: fmt.Sprintf("case %d: data section %s has size %d but is declared as %q", idx, gl.Symbol.Name, gl.Size, ln), Replay: map[string]any{"file": g.Desc, "text": string(out)}})
 					}
@@ -301,6 +312,15 @@ func c11(c *Ctx) {
 					frame, _ = strconv.ParseInt(m[1], 10, 64)
 					if m[2] != "" {
 						args, _ = strconv.ParseInt(m[2], 10, 64)
+					}
+				}
+				if fm := textFlagsRe.FindStringSubmatch(ln); fm != nil {
+					got, okf := uint64(0), true
+					if fm[1] != "" {
+						got, okf = evalFlags(fm[1], macros)
+					}
+					if !okf || got != uint64(fnSec.Attributes) {
+						o.Plan.GoViolations = append(o.Plan.GoViolations, GoViolation{Key: "print:text-flags", Desc: fmt.Sprintf("case %d: function %s has attributes %d but its TEXT line %q evaluates to %d", idx, fnSec.Name, uint64(fnSec.Attributes), ln, got), Replay: map[string]any{"file": g.Desc, "text": string(out)}})
 					}
 				}
 				if frame != int64(fnSec.FrameBytes()) || args != int64(fnSec.ArgumentBytes()) {
@@ -438,3 +458,26 @@ func checkObjdump(o *Out, idx int, g *genFile, dump string, text string) {
 		}
 	}
 }
+
+// evalFlags evaluates a flags expression as the assembler does (macro names of textflag.h and decimal
+// numbers joined by |); ok=false if a token is neither
+func evalFlags(expr string, macros map[string]uint64) (v uint64, ok bool) {
+	expr = strings.TrimSpace(expr)
+	if expr == "" {
+		return 0, false
+	}
+	for _, tok := range strings.Split(expr, "|") {
+		tok = strings.TrimSpace(tok)
+		if m, isM := macros[tok]; isM {
+			v |= m
+		} else if n, err := strconv.ParseUint(tok, 0, 64); err == nil {
+			v |= n
+		} else {
+			return 0, false
+		}
+	}
+	return v, true
+}
+
+var textFlagsRe = regexp.MustCompile(`^TEXT [^,]*,(?: ([^,$]*),)? \$`)
+var globlFlagsRe = regexp.MustCompile(`^GLOBL [^,]*, ([^,$]*), \$`)
